@@ -3,22 +3,10 @@
 import json, os, subprocess
 V = os.path.dirname(os.path.dirname(os.path.abspath(__file__)))
 
-CLAIMED = {
- "C17": dict(
-   text="Machine-checked theorems (Coq 8.16.1, Closed under the global context) on a hand-written Gallina model of htp_list_array_*, "
-        "htp_table_*, the bstr compare/search/prefix/trim/append primitives and the numeric parsers: the ring buffer equals a deque for "
-        "EVERY operation sequence and initial capacity and no checked array access faults; the table equals an insertion-ordered multimap "
-        "with case-insensitive first-match lookup; compare = lexicographic order; index_of = least matching offset; to_pint = the "
-        "mathematical value when it is <= 2^63-1, -2 otherwise (no wrapped value). The model is tied to /repo on every run by "
-        "regenerated constants (character-class tables, limits, enum values dumped by a program compiled against /repo) and by a "
-        "correspondence run of the extracted model against the library built from the working tree under ASan+UBSan.",
-   note="Trusted: Coq kernel/vm_compute; extraction (ExtrOcamlBasic only); the C and OCaml drivers; clang/ASan. Modelled not verified: "
-        "the C object code (differential tie, bounded by the generated cases listed in the evidence); void* elements are opaque ids; "
-        "allocation-failure paths belong to C18; positions >= 2^31 excluded.",
-   technique="Coq proof (refinement to abstract deque/multimap, induction over op sequences) + extracted-model/implementation correspondence",
-   design="5/C17"),
-}
-
+import glob
+CLAIMED = {}
+for f in sorted(glob.glob(os.path.join(V, "lib", "claims", "C*.json"))):
+    CLAIMED[os.path.basename(f)[:-5]] = json.load(open(f))
 REASONS_NOT_YET = "model and theorems for this property are not built yet in this round; no check is claimed until at least one theorem about its statement is machine-checked and tied to /repo (DESIGN.md section 8)"
 
 def main():
@@ -50,7 +38,8 @@ def main():
               "level_claimed": {"category": "proof", "text": c["text"], "design_ref": c["design"]},
               "level_note": c["note"], "technique": c["technique"]})
         else:
-            m["not_applicable"].append({"property_id": p, "reason": REASONS_NOT_YET})
+            rf = os.path.join(V, "lib", "claims", p + ".na")
+            m["not_applicable"].append({"property_id": p, "reason": open(rf).read().strip() if os.path.exists(rf) else REASONS_NOT_YET})
     json.dump(m, open(os.path.join(V, "MANIFEST.json"), "w"), indent=1)
     print("MANIFEST.json: %d claimed, %d not claimed" % (len(m["checks"]), len(m["not_applicable"])))
 
